@@ -19,9 +19,9 @@ mv "$DEMO" /tmp/wt/$ID.demo.go
 go build ./... && go test -vet=off -count=1 -timeout 25m ./... 2>&1 | grep -v "^ok\|no test files" ; echo "suite rc=${PIPESTATUS[0]}"
 mv /tmp/wt/$ID.demo.go "$DEMO"
 echo "== 3. demo WITHOUT change (expect PASS) x3"
-git stash push -q -- $(git diff --name-only) 
+git diff > /tmp/wt/$ID.src.patch; git apply -R /tmp/wt/$ID.src.patch
 p=0; for i in 1 2 3; do go test -vet=off -count=1 -run TestSeededDemo "$PKG" >/tmp/wt/$ID.demo2.log 2>&1 && p=$((p+1)); done; echo "passed $p/3"; tail -3 /tmp/wt/$ID.demo2.log
-git stash pop -q
+git apply /tmp/wt/$ID.src.patch
 echo "RESULT fail_with=$f pass_without=$p"
 } > "$OUT/verify.log" 2>&1
 tail -1 "$OUT/verify.log"
